@@ -11,7 +11,7 @@ RULE = ("field records are obtained by decoding arbitrary (random / structured /
         "model, so every well-formed record can arise; the Spec encoder (SpecLayers.v, arithmetic, written from the "
         "specification tables) produces the wire bytes for each admissible shape (optional tails, ID-string encodings, "
         "DCMI versions); predicate = the implementation decodes those bytes to exactly that record; tie = the Impl model "
-        "does too.  Reject families: every single-byte corruption of either checksum and of every covered byte, cancelling "
+        "does too, into a fresh value and into one that decoded another (longer) response before.  Reject families: every single-byte corruption of either checksum and of every covered byte, cancelling "
         "two-byte corruptions, wrapper length field larger than the data, every length below each layer's minimum.  "
         "distinct by (layer, shape, spec bytes); non-trivial = the spec encoding exists and differs from a previous one")
 
@@ -91,6 +91,25 @@ def run(ch, build):
                    descs=[{"kind": "c07-roundtrip", "layer": dmeta[i][0], "shape": dmeta[i][1]} for i in idx],
                    nontrivial=[dmeta[i][2] for i in idx])
     ch.extra["generator_not_applicable"] = na
+    # the same through a layer value that has decoded ANOTHER response before (the theorems hold for every previous content
+    # of the layer; the library itself reuses one command value across pages, entities and retries): the prior response is
+    # a specification encoding of the same layer, preferably a longer one
+    pools = {}
+    for (name, shape, nt), c in zip(dmeta, dec_cmds):
+        pools.setdefault(name, []).append(c.split(" ")[3])
+    rcmds, rexp, rdesc = [], [], []
+    for i, (name, shape, nt) in enumerate(dmeta):
+        if not nt or (ch.quick() and ch.rng.randrange(6)):
+            continue
+        h = dec_cmds[i].split(" ")[3]
+        cands = pools[name]
+        longer = [x for x in (ch.rng.choice(cands) for _ in range(6)) if len(x) > len(h)]
+        prior = longer[0] if longer else ch.rng.choice(cands)
+        rcmds.append("dec %s %s %s" % (name, prior if prior != "-" else "-", h)); rexp.append(expect[i])
+        rdesc.append({"kind": "c07-roundtrip-reused", "layer": name, "shape": shape})
+    rgo = core.harness(rcmds)
+    rmodel = core.oracle(rcmds)
+    ch.compare("roundtrip-reused-layer", rcmds, rgo, rmodel, rexp, descs=rdesc)
     reject(ch)
     return ch.finish(rule=RULE, assumptions=[
         "spec tables written from IPMI v2.0 rev 1.1 / DCMI 1.5 as reproduced in the code's field comments and pinned tests (the PDFs under /repo/specifications are LFS stubs); observations O1-O6 of DESIGN.md follow the library's documented choice",
